@@ -48,6 +48,7 @@ type c02RunParams struct {
 	Conc   int    `json:"conc"`
 	Body   string `json:"body"`
 	IvUS   int    `json:"iv_us"`
+	DurMS  int    `json:"dur_ms,omitempty"` // kind deadline: the max-duration that ends the run
 }
 
 func init() {
@@ -212,9 +213,22 @@ func init() {
 				cse.TimeoutMS = 60000
 				cs = append(cs, cse)
 			}
+			// runs that end by their max-duration (or a config-file stage by its own) with ticks every few milliseconds
+			for i := 0; i < map[string]int{"quick": 6, "thorough": 48}[tier]; i++ {
+				p := c02RunParams{Conc: pick(r, 1, 2, 16), StopAt: -1, Body: pick(r, "instant", "spin", "sleep"), IvUS: pick(r, 2000, 3000, 5000, 7000)}
+				for k := 0; k < 16; k++ {
+					p.Values = append(p.Values, pick(r, 1, 1, p.Conc, 3*p.Conc+1, 7))
+				}
+				p.DurMS = 120 + r.IntN(240)
+				cse := core.MkCase("C02", "deadline", i, seed, p)
+				cse.Race = i%2 == 0
+				cse.Procs = pick(r, 2, 16)
+				cse.TimeoutMS = 60000
+				cs = append(cs, cse)
+			}
 			return cs
 		},
-		Kinds:  map[string]core.RunFunc{"script": c02Script, "hook": c02Hook, "stress": c02Stress, "counter": c02Counter, "run": c02Run, "limitrace": c02LimitRace, "hammer": c02Hammer, "filecancel": c02FileCancel, "filelimit": c02FileLimit, "extremes": c02Extremes, "dualdrop": c02DualDrop},
+		Kinds:  map[string]core.RunFunc{"deadline": c02Deadline, "script": c02Script, "hook": c02Hook, "stress": c02Stress, "counter": c02Counter, "run": c02Run, "limitrace": c02LimitRace, "hammer": c02Hammer, "filecancel": c02FileCancel, "filelimit": c02FileLimit, "extremes": c02Extremes, "dualdrop": c02DualDrop},
 		Floors: map[string]int64{"script_steps": 500, "steps_superseding": 50, "steps_stop_with_pending": 10, "steps_limit_silent": 10, "hook_schedules_formed": 6, "stress_drops": 1000, "porcupine_histories": 400},
 	})
 }
@@ -912,6 +926,69 @@ func c02Counter(c *core.Case, o *core.Outcome) {
 }
 
 // ---------------------------------------------------------------- whole run, stop from inside evaluation m
+
+// c02Deadline: a run that triggers every few milliseconds until its max-duration stops it. A tick that was followed by
+// another rate evaluation made while triggering was still on has been handed to the pool, and the call returned, before
+// triggering stopped: its requests are committed. Committed requests are started or reported dropped; nothing beyond what
+// was requested is.
+func c02Deadline(c *core.Case, o *core.Outcome) {
+	var p c02RunParams
+	c.Params(&p)
+	l := engine.NewLog()
+	var started atomic.Int64
+	salt := c.Rng("salt").Uint64()
+	scenario := func(t *f1testing.T) f1testing.RunFn {
+		return func(t *f1testing.T) {
+			started.Add(1)
+			bodyWork(p.Body, engine.IDOf(t)*2654435761+salt)
+		}
+	}
+	var mu sync.Mutex
+	var trigCtx context.Context
+	var all, before, committed int64
+	var nAll, nCommitted int
+	hooks := &engine.Hooks{
+		OnTrigger: func(ctx context.Context) { mu.Lock(); trigCtx = ctx; mu.Unlock() },
+		OnRate: func(k int, _ time.Time, v int) int {
+			mu.Lock()
+			if trigCtx != nil && trigCtx.Err() == nil {
+				committed, nCommitted = before, nAll
+			}
+			all += int64(v)
+			before = all
+			nAll++
+			mu.Unlock()
+			return v
+		},
+	}
+	spec := engine.Spec{Mode: "custom", CustomIntervalUS: p.IvUS, CustomRates: p.Values, Concurrency: p.Conc, MaxDurationMS: p.DurMS, IgnoreDropped: true}
+	spec.NoIterationMetrics = c.Rng("metrics").IntN(3) == 0
+	r := engine.Execute(context.Background(), spec, l, scenario, hooks, nil)
+	if r.NewErr != nil {
+		o.Inconc("harness: cannot build run: %v", r.NewErr)
+		return
+	}
+	su, fa, dr := resultCounts(r)
+	got := int64(su + fa + dr)
+	desc := fmt.Sprintf("values=%v (the last repeats) c=%d body=%s interval=%dus max-duration=%dms itermetrics=%v", p.Values, p.Conc, p.Body, p.IvUS, p.DurMS, !spec.NoIterationMetrics)
+	o.Events = started.Load() + int64(nAll)
+	if int64(su+fa) != started.Load() {
+		o.Violate("deadline-started:"+desc, "%d bodies ran, the result reports %d started (%s)", started.Load(), su+fa, desc)
+		return
+	}
+	if got < committed || got > all {
+		o.Violate("deadline-conservation:"+desc, "%d ticks were each followed by a rate evaluation made while triggering was still on; they requested %d iterations (all %d evaluations: %d); the run reports %d started + %d dropped = %d (%s)", nCommitted, committed, nAll, all, su+fa, dr, got, desc)
+		return
+	}
+	if nCommitted < 10 {
+		o.Inconc("only %d ticks were committed (%s)", nCommitted, desc)
+		return
+	}
+	o.AddObs("stress_drops", int64(dr))
+	o.AddObs("deadline_ticks_committed", int64(nCommitted))
+	o.Sig("deadline:c=%d:body=%s:iv=%d:procs=%d", p.Conc, p.Body, p.IvUS, c.Procs)
+	o.Sample = map[string]any{"case": desc, "committed": committed, "requested": all, "started": su + fa, "dropped": dr}
+}
 
 func c02Run(c *core.Case, o *core.Outcome) {
 	var p c02RunParams
